@@ -343,6 +343,8 @@ class MultiAgentProblem(  # type: ignore[misc]
             version=LATEST_PROBLEM_KIND_VERSION
         )
         self._kind.set_problem_class("ACTION_BASED_MULTI_AGENT")
+        for ut in self.user_types:
+            self._update_problem_kind_type(ut)
         for ag in self.agents:
             for fluent in ag.fluents:
                 self._update_problem_kind_fluent(fluent)
